@@ -350,6 +350,70 @@ pub fn check_c11_final(history: &History, snapshot: &Snapshot<u64>) -> Check {
     Ok(())
 }
 
+/// Final state of keys with a single, sequential writer (every write awaited before the thread's next write of that key
+/// began) in a cache far from full: if that writer's history ends with the key present and WITHOUT a time-to-live (last
+/// effective write: an accepted put without TTL, or an accepted put_or_update that removed the TTL), the key must be held
+/// at quiescence, without an expiry. Nothing else may remove it: no other writer, no eviction (the cache is roomy), no
+/// expiry. What other threads, the sweeper and the clock do in the meantime must not matter.
+pub fn check_sole_writer_final(history: &History, snapshot: &Snapshot<u64>, start_clock: u64) -> Check {
+    if history.shutdown_called || snapshot.max_weight < 4000 { return Ok(()); }
+    let writes = writes_of(history);
+    if writes.iter().any(|write| write.status == Some(St::RejSpace)) { return Ok(()); }
+    let clock_low = |stamp: u64| history.clock_log.iter().rev().find(|(at, _)| *at <= stamp).map(|(_, value)| *value).unwrap_or(start_clock);
+    let clock_high = |stamp: u64| history.clock_log.iter().find(|(at, _)| *at > stamp).map(|(_, value)| *value).unwrap_or_else(|| history.clock_log.last().map(|(_, value)| *value).unwrap_or(start_clock));
+    let mut by_key: BTreeMap<u8, Vec<&WriteView>> = BTreeMap::new();
+    for write in &writes { by_key.entry(write.key).or_default().push(write); }
+    #[derive(Clone, Copy)]
+    enum State { Absent, NoTtl, Ttl { earliest_deadline: u128 } }
+    'keys: for (k, list) in by_key.iter_mut() {
+        let threads: BTreeSet<usize> = list.iter().map(|write| write.rec.thread).collect();
+        if threads.len() != 1 { continue; }
+        list.sort_by_key(|write| write.rec.index);
+        let mut state = State::Absent;
+        for (position, write) in list.iter().enumerate() {
+            let Some(status) = write.status else { continue 'keys };
+            if write.err || write.kind == "forgotten-put" || status == St::Pending || status == St::ShuttingDown { continue 'keys; }
+            // sequential: acknowledged before the next write of the key began
+            if let Some(next) = list.get(position + 1) { if write.seen_done == 0 || write.seen_done > next.rec.start { continue 'keys; } }
+            let with_ttl = |ttl_ns: u128| State::Ttl { earliest_deadline: clock_low(write.rec.start) as u128 + ttl_ns };
+            // a key with a TTL may have run out (and may or may not have been swept) when this write arrives: then what
+            // the write finds, and what becomes of an in-place update of the dead entry, is not settled by the property
+            // (see the recorded finding F7): such keys are not judged
+            let possibly_expired = matches!(state, State::Ttl { earliest_deadline } if clock_high(write.rec.end) as u128 >= earliest_deadline);
+            match (write.kind, status) {
+                ("put", St::Accepted) => state = match write.ttl_ns { Some(ttl_ns) => with_ttl(ttl_ns), None => State::NoTtl },
+                ("put", St::RejExists) => { if matches!(state, State::Absent) { continue 'keys; } }
+                ("upsert", St::Accepted) => {
+                    if possibly_expired && write.in_place != Some(false) { continue 'keys; }
+                    let was = if write.in_place == Some(false) { State::Absent } else { state };
+                    state = match (was, write.removes_ttl, write.ttl_ns) {
+                        (_, true, _) => State::NoTtl,
+                        (_, false, Some(ttl_ns)) => with_ttl(ttl_ns),
+                        (State::Absent, false, None) => State::NoTtl,
+                        (other, false, None) => other,
+                    };
+                }
+                ("delete", St::Accepted) | ("delete", St::RejMissing) => state = State::Absent,
+                _ => continue 'keys,
+            }
+        }
+        if matches!(state, State::NoTtl) {
+            let last = list.last().unwrap();
+            let held = snapshot.store.iter().find(|entry| entry.key == *k as u64);
+            match held {
+                None => return Err(Failure::new("C03", "C03/conc/sole-writer-key-lost", format!("thread {} is the only writer of key {}; its last write (op {}, {} acknowledged {:?}) left the key in the cache without a time-to-live, nothing was refused for space in a cache of weight {}, yet the key is not held at quiescence: it was removed although it was neither deleted nor expired nor evicted", last.rec.thread, k, last.rec.index, last.kind, last.status, snapshot.max_weight)).with_also(vec!["C09".to_string(), "C10".to_string()])),
+                Some(entry) => {
+                    ensure!(!entry.soft_deleted, "C04", "C04/conc/marked-deleted-at-quiescence", "key {} is held and marked deleted at quiescence although its only writer's last write was not a delete", k);
+                    if let Some(expiry) = entry.expire_after {
+                        return Err(Failure::new("C08", "C08/conc/ttl-not-removed", format!("thread {} is the only writer of key {}; its last write (op {}, {} acknowledged {:?}) left the key without a time-to-live, yet the entry held at quiescence expires at {:?}", last.rec.thread, k, last.rec.index, last.kind, last.status, expiry)).with_also(vec!["C09".to_string()]));
+                    }
+                }
+            }
+        }
+    }
+    Ok(())
+}
+
 /// C10 in concurrent histories: after the final rotation (one complete sweep of every shard) no key whose deadline lay
 /// before the rotation may be left, and its weight must be released (the bijection check covers the weight).
 pub fn check_c10(history: &History, snapshot: &Snapshot<u64>) -> Check {
@@ -571,6 +635,8 @@ pub enum ConcProfile {
     /// a few short-lived TTL keys that are expired, deleted, re-put and re-TTL'd by several threads while the sweeper is
     /// slowed down between its steps (weight release, store removal) and a clock thread keeps expiring keys
     SweepRace,
+    /// SweepRace plus one thread that is the only writer of four private keys and keeps giving them a TTL and taking it away
+    TtlOwner,
     /// tiny programs (2-3 client threads, 2-7 operations each, 1-2 keys, TTLs, clock moves as program steps) executed
     /// under the controlled scheduler: the interleaving of clients, worker, sweeper and consumer at the schedule points is
     /// chosen by generated priorities, not by the operating system
@@ -593,7 +659,7 @@ fn cop_strategy(profile: ConcProfile, max_key: u8) -> BoxedStrategy<COp> {
         ConcProfile::Reads => prop_oneof![1 => put, 30 => read, 1 => hold].boxed(),
         ConcProfile::Deadlock => prop_oneof![5 => put, 6 => upsert, 3 => delete, 6 => read, 2 => hold, 1 => Just(COp::AwaitAll)].boxed(),
         ConcProfile::Bursts => prop_oneof![6 => put, 2 => upsert, 4 => delete, 1 => read, 2 => (40u8..120).prop_map(|k| COp::Forget { k })].boxed(),
-        ConcProfile::DeleteWindow | ConcProfile::EvictVsSweep | ConcProfile::PutContention | ConcProfile::TightFit | ConcProfile::SweepRace | ConcProfile::Sched => prop_oneof![6 => put, 2 => upsert, 4 => delete, 1 => read].boxed(),
+        ConcProfile::DeleteWindow | ConcProfile::EvictVsSweep | ConcProfile::PutContention | ConcProfile::TightFit | ConcProfile::SweepRace | ConcProfile::TtlOwner | ConcProfile::Sched => prop_oneof![6 => put, 2 => upsert, 4 => delete, 1 => read].boxed(),
     }
 }
 
@@ -700,6 +766,31 @@ fn sweep_race_strategy(thorough: bool) -> BoxedStrategy<ConcCase> {
     (cfg, threads, injection, clock).prop_map(|(cfg, threads, injection, clock)| ConcCase { cfg, threads, injection, clock, monitor: true, consumer: ConsumerMode::Free, sched: None }).boxed()
 }
 
+/// The sweep-race programs plus an owner thread: the only writer of keys 10..=13, every write awaited. It gives a key a
+/// short TTL, pauses, removes the TTL again (or replaces the key by one without TTL) and finally leaves each key without a
+/// TTL, while the other threads keep the sweeper busy in the same expiry shards.
+fn ttl_owner_strategy(thorough: bool) -> BoxedStrategy<ConcCase> {
+    let short_ttl = prop_oneof![(100u32..=1500).prop_map(TtlSel::Millis), (0u32..=3).prop_map(TtlSel::Secs)];
+    let step = (10u8..=13, short_ttl, 0u8..4, 0u8..6, read_kind_strategy()).prop_map(|(k, ttl, how, pause, kind)| {
+        let mut ops = vec![COp::Put { k, extra: 0, explicit: true, ttl: Some(ttl.clone()), wait: true }, COp::Pause(pause)];
+        match how {
+            0 | 1 => ops.push(COp::Upsert { k, down: 0, ttl: TtlReq::Remove, wait: true }),
+            2 => { ops.push(COp::Upsert { k, down: 0, ttl: TtlReq::Set(ttl), wait: true }); ops.push(COp::Pause(pause)); ops.push(COp::Upsert { k, down: 0, ttl: TtlReq::Remove, wait: true }); }
+            _ => { ops.push(COp::Delete { k, wait: true }); ops.push(COp::Put { k, extra: 1, explicit: true, ttl: None, wait: true }); }
+        }
+        ops.push(COp::Read { kind, keys: vec![k] });
+        ops
+    });
+    let owner = prop::collection::vec(step, 3..=(if thorough { 20 } else { 10 })).prop_map(|steps| steps.into_iter().flatten().collect::<Vec<COp>>());
+    (sweep_race_strategy(thorough), owner).prop_map(|(mut case, owner)| {
+        case.threads.truncate(3);
+        case.threads.push(owner);
+        // the sweeper is held inside its pass (expiry shard locked) more often than not
+        case.injection.sites.push((Site::SweeperInRetain as u8, 200, Delay::SleepUs(400)));
+        case
+    }).boxed()
+}
+
 fn sched_strategy(thorough: bool) -> BoxedStrategy<ConcCase> {
     let key = prop_oneof![3 => Just(0u8), 1 => Just(1u8)];
     let ttl = prop_oneof![2 => Just(None), 2 => (0u32..=2).prop_map(|s| Some(TtlSel::Secs(s))), 1 => (200u32..=900).prop_map(|m| Some(TtlSel::Millis(m)))];
@@ -760,6 +851,7 @@ fn tight_fit_strategy(thorough: bool) -> BoxedStrategy<ConcCase> {
 pub fn conc_case_strategy(profile: ConcProfile, thorough: bool) -> BoxedStrategy<ConcCase> {
     if profile == ConcProfile::TightFit { return tight_fit_strategy(thorough); }
     if profile == ConcProfile::SweepRace { return sweep_race_strategy(thorough); }
+    if profile == ConcProfile::TtlOwner { return ttl_owner_strategy(thorough); }
     if profile == ConcProfile::Sched { return sched_strategy(thorough); }
     if profile == ConcProfile::PutContention { return put_contention_strategy(thorough); }
     if profile == ConcProfile::DeleteWindow { return delete_window_strategy(thorough); }
@@ -814,7 +906,7 @@ pub fn check_conc(case: &ConcCase, run: &ConcRun, property: &str) -> Check {
     let history = &run.history;
     let start_clock = BASE_SECS * 1_000_000_000 + case.cfg.start_ns;
     let ordered: Vec<&str> = {
-        let all = ["progress", "C13", "C11", "C02", "C03", "C07", "C01", "C05", "C10", "C16", "C15", "index"];
+        let all = ["progress", "C13", "C11", "C02", "C03", "C07", "C01", "C05", "C10", "C16", "C15", "index", "sole-writer"];
         // progress first: a blocked or crashed run has an incomplete history, which the other checkers must not judge
         let mut first: Vec<&str> = vec!["progress"];
         first.extend(all.iter().copied().filter(|name| *name == property && *name != "progress"));
@@ -837,6 +929,7 @@ pub fn check_conc(case: &ConcCase, run: &ConcRun, property: &str) -> Check {
             "C15" => check_c15(case, history)?,
             "C10" => { if let Some(snapshot) = &run.snapshot { check_c10(history, snapshot)?; } }
             "index" => { if let Some(snapshot) = &run.snapshot { check_index(history, snapshot)?; } }
+            "sole-writer" => { if let Some(snapshot) = &run.snapshot { check_sole_writer_final(history, snapshot, start_clock)?; } }
             "C16" => { if let Some(snapshot) = &run.snapshot { check_c16(history, snapshot)?; } }
             _ => {}
         } Ok(()) })();
